@@ -65,11 +65,14 @@ static MV mS(const std::string &v) {
     m.s = v;
     return m;
 }
-// what a pointer node forwards to
-static const MV &deref(const MV &m, const MV &target) { return m.k == MV::P ? target : m; }
+// what a pointer node forwards to: three pointees (an object, a string, an Undefined value)
+struct Targets {
+    MV t[3];
+};
+static const MV &deref(const MV &m, const Targets &target) { return m.k == MV::P ? target.t[m.u] : m; }
 
-static std::string mjson(const MV &m, const MV &target, bool top);
-static void        mjson_into(const MV &m0, const MV &target, std::string &o) {
+static std::string mjson(const MV &m, const Targets &target, bool top);
+static void        mjson_into(const MV &m0, const Targets &target, std::string &o) {
     const MV &m = deref(m0, target);
     char      b[64];
     switch (m.k) {
@@ -116,7 +119,7 @@ static void        mjson_into(const MV &m0, const MV &target, std::string &o) {
         default: break;
     }
 }
-static std::string mjson(const MV &m, const MV &target, bool) {
+static std::string mjson(const MV &m, const Targets &target, bool) {
     std::string o;
     const MV   &r = deref(m, target);
     if (r.k == MV::A || r.k == MV::O) {
@@ -135,7 +138,7 @@ static std::string mdump(const MV &m) {
         case MV::SI: return "i" + std::to_string(m.i);
         case MV::D: return "d" + std::to_string(m.d);
         case MV::S: return "\"" + m.s + "\"";
-        case MV::P: return "*";
+        case MV::P: return "*" + std::to_string(m.u);
         case MV::A:
             o = "[";
             for (auto &e : m.items) {
@@ -179,7 +182,7 @@ static bool numeric_string(const std::string &s, int &kind, unsigned long long &
     return false;
 }
 
-static std::string compare(const V &v, const MV &m0, const MV &target, const std::string &path, int depth = 0) {
+static std::string compare(const V &v, const MV &m0, const Targets &target, const std::string &path, int depth = 0) {
     const MV &m = deref(m0, target);
     char      b[300];
     if (depth > 12) {
@@ -289,7 +292,9 @@ static std::string compare(const V &v, const MV &m0, const MV &target, const std
         for (size_t x = 0; x < m.items.size(); x++) {
             const V *e = v.GetValue(SizeT(x));
             bool     hole = deref(m.items[x], target).k == MV::U;
-            if ((e == nullptr) != hole) {
+            // a pointer node whose pointee is Undefined may be handed out as a node that reports IsUndefined()
+            const bool ptr_to_undef = hole && m.items[x].k == MV::P;
+            if (((e == nullptr) != hole) && !(ptr_to_undef && e != nullptr && e->IsUndefined())) {
                 snprintf(b, sizeof b, "%s[%zu]: GetValue(index) is %s, model element is %s", path.c_str(), x, e ? "present" : "null", mdump(m.items[x]).c_str());
                 return b;
             }
@@ -304,6 +309,7 @@ static std::string compare(const V &v, const MV &m0, const MV &target, const std
             if (bk != e) {
                 return path + ": GetValue(\"" + ks + "\") differs from GetValue(" + ks + ")";
             }
+            (void)ptr_to_undef;
         }
         if (v.GetValue(SizeT(m.items.size())) != nullptr || v.GetValue(SizeT(m.items.size() + 5)) != nullptr) {
             return path + ": GetValue(index beyond the end) is not null";
@@ -400,7 +406,9 @@ struct OpD {
 struct VSys {
     alignas(16) unsigned char raw0[sizeof(V)], raw1[sizeof(V)], rawT[sizeof(V)];
     V  *R0, *R1, *T;
-    MV  m0, m1, mt;
+    V   TS, TU; // further pointees: a string and an Undefined value
+    MV  m0, m1;
+    Targets mt;
     VSys() {
         memset(raw0, 0xAB, sizeof raw0);
         memset(raw1, 0xAB, sizeof raw1);
@@ -410,8 +418,11 @@ struct VSys {
         T  = new (rawT) V();
         // the pointee: an object kept alive for the whole history
         (*T)["k"] = SizeT64{1};
-        mt.k      = MV::O;
-        mt.members.push_back({"k", mUI(1)});
+        mt.t[0].k = MV::O;
+        mt.t[0].members.push_back({"k", mUI(1)});
+        TS      = "ps";
+        mt.t[1] = mS("ps");
+        mt.t[2] = mU();
     }
     ~VSys() {
         R0->~V();
@@ -435,7 +446,8 @@ struct VSys {
                 "Remove(\"a\")", "Remove(\"b\",1)", "Remove(String \"a\")", "Remove(String \"k\")", "RemoveIndex(0)", "RemoveIndex(1)", "RemoveIndex(Size)",
                 "Reset", "Compress", "Sort", "Sort desc",
                 "Get(\"b\",1)=5u", "Get(StringView \"c\")=\"s\"", "Insert(\"a\",6u)", "[StringView \"b\"]=null", "[String&& \"c\"]=true", "[const String& \"a\"]=-3",
-                "SetPointerToValue(&T)", "AddPointerToValue(&T)",
+                "SetPointerToValue(&T)", "AddPointerToValue(&T)", "SetPointerToValue(&TS string)", "AddPointerToValue(&TS string)",
+                "AddPointerToValue(&TU undefined)",
             };
             for (auto p : paths) {
                 for (auto a : acts) {
@@ -1006,6 +1018,18 @@ struct VSys {
                 MV p;
                 p.k = MV::P;
                 m_append(M, p);
+            } else if (act == "SetPointerToValue(&TS string)") {
+                X.SetPointerToValue(&TS);
+                M   = MV();
+                M.k = MV::P;
+                M.u = 1;
+            } else if (act == "AddPointerToValue(&TS string)" || act == "AddPointerToValue(&TU undefined)") {
+                const bool und = act == "AddPointerToValue(&TU undefined)";
+                X.AddPointerToValue(und ? &TU : &TS);
+                MV p;
+                p.k = MV::P;
+                p.u = und ? 2 : 1;
+                m_append(M, p);
             } else {
                 return false;
             }
@@ -1017,7 +1041,7 @@ struct VSys {
             err = compare(*R1, m1, mt, "R1");
         }
         if (err.empty()) {
-            err = compare(*T, mt, mt, "T"); // the pointee is never modified through a pointer node
+            err = compare(*T, mt.t[0], mt, "T"); // the pointee is never modified through a pointer node
         }
         if (err.empty()) {
             StringStream<char> ss;
